@@ -582,8 +582,7 @@ def step (s : St) : Op → St × Out
         match s.heap[x]?, s.heap[y]?, absVal s.heap x, absVal s.heap y with
         | some ox, some oy, some va, some vb =>
           if ox.sc.isSeq || oy.sc.isSeq then (s.skip, .na)
-          else if va.family ≠ vb.family then (s.skip, .bool (.ok false))     -- NotImplemented twice
-          else (s.skip, .bool (do let p ← serVal va; let q ← serVal vb; pure (p == q)))
+          else (s.skip, .bool (eqVals ox.isMut va oy.isMut vb))
         | _, _, _, _ => (s.skip, .badRef)
       | _, _ => (s.skip, .badRef)
   | .sighash r sub inIdx ht =>
